@@ -98,7 +98,7 @@ func (pc progCheck) run(r *core.Run) (res pcResult, cleanup func()) {
 		in.Spec.programs(shard, n, visit)
 		if in.Spec.Mixed {
 			idx := 0
-			for _, e := range enumEntries(in.Spec.Tokens, in.Spec.One) {
+			for _, e := range enumEntriesFlags(in.Spec.Tokens, in.Spec.One, in.Spec.Flags) {
 				if idx++; idx%n != shard {
 					continue
 				}
@@ -117,6 +117,9 @@ func (pc progCheck) run(r *core.Run) (res pcResult, cleanup func()) {
 		}
 		emit(out)
 	})
+	if r.Abandon() {
+		return res, cleanup
+	}
 	st := pcStats{ByStratum: map[string]int{}}
 	var fails []pcFail
 	for _, o := range outs {
